@@ -24,7 +24,8 @@ MANIFEST = dict(
          "ordered message list and return code on generated rule sets (1-3 namespaces, some with >64 rules/namespaces, 0-3 imports, all four flag settings, "
          "three API entry styles (scanner + set_flags, yr_rules_scan_mem, scanner with default flags), unrelated scan flags mixed in, buffers <= 19 bytes, "
          "several consecutive scans per scanner over different buffers and through different calls: yr_scanner_scan_mem, yr_scanner_scan_mem_blocks with a "
-         "one-block iterator with / without a file_size function (filesize undefined), and yr_scanner_scan_proc of a helper process as a step in between) "
+         "one-block iterator with / without a file_size function (filesize undefined), yr_scanner_scan_proc of a helper process as a step in between, and further yr_scanner_set_flags calls between scans (no report flag => both); "
+         "whole conditions of type integer incl. negative values, also in global rules) "
          "with abort/error at every message index k incl. import, imported, first, last and finished messages; "
          "plus, against a library built with -DYR_MAX_STRING_MATCHES=10, rule sets whose strings occur limit-1 / limit / limit+1 / more times (1-3 overflowing strings "
          "per set, mostly with string index != rule index, public and private, used as $s / not $s / #s > N with N around the limit, late-occurring marker strings, "
@@ -122,6 +123,9 @@ def gen_ruleset(r, big=False):
                 cond = "T"
         else:
             cond = gen_cond(r, buf, earlier)
+        if not big and r.random() < 0.14:
+            # a whole condition of type integer (also for global rules): true iff defined and non-zero, negative values included
+            cond = "I%d" % r.choice([0, 1, 1, 2, 2, 3, 3, 4, 5])
         items.append("r:%d:%s:%s" % (ns, kind, cond))
         earlier.append(j)
     return hexs(buf), ";".join(items), nrules, 2 * len(mods) + nrules + 1
@@ -135,8 +139,10 @@ def other_buf(r, bufhex):
         return "-"
     if u < 0.5 and len(b) > 1:
         return hexs(b[:r.randint(1, len(b) - 1)])
-    if u < 0.75:
+    if u < 0.70:
         return hexs(b + bytes(r.choice(b"abcd") for _ in range(r.randint(1, 3))))
+    if u < 0.82:      # first byte >= 0x80 (int8(0) negative) or 0x00 (int8(0) zero), length around the 3 / 5 of the integer conditions
+        return hexs(bytes([r.choice([0x80, 0xff, 0xc3, 0x00])]) + bytes(r.choice(b"abcd") for _ in range(r.choice([0, 1, 2, 3, 4, 5]))))
     return hexs(bytes(r.choice(b"xyzab") for _ in range(r.randint(1, 16))))
 
 
@@ -161,15 +167,27 @@ def scan_kinds(r, scripts, api):
     """history of different scan calls on one scanner: some scans go through a caller's block iterator without (b:) or
     with (B:) a file_size function, and a process scan (p) may sit between two scans. The scanner must start every scan
     from its configured flags and assign the file size anew (undefined without a size function)."""
-    if r.random() < 0.6:
+    u0 = r.random()
+    if u0 < 0.5:
         return list(scripts)
     out = []
     for sc in scripts:
         u = r.random()
-        out.append(("b:" if u < 0.35 else "B:" if u < 0.45 else "") + sc)
-    if api != "r" or r.random() < 0.3:
+        out.append(("b:" if u < 0.35 else "B:" if u < 0.45 else "") + sc if u0 < 0.9 else sc)
+    if u0 < 0.9 and (api != "r" or r.random() < 0.3):
         for _ in range(r.choice([1, 1, 2])):
             out.insert(r.randint(1, len(out)) if len(out) > 1 and r.random() < 0.8 else 0, "p")
+    if u0 >= 0.72:
+        # yr_scanner_set_flags called again between scans: the flags in force are those of the last call, and a call that
+        # names no report flag means both (whatever an earlier call restricted them to)
+        seq = [r.choice([(1, 0), (2, 0), (0, 0), (0, 1), (0, 4), (3, 0), (1, 1), (2, 4), (0, 5)]) for _ in range(r.randint(2, 4))]
+        if not any(f in (1, 2) for f, _ in seq) or not any(f == 0 for f, _ in seq):
+            seq = [(r.choice([1, 2]), 0), (0, r.choice([0, 1, 4]))] + seq[:1]
+        pos = 1
+        for f, x in seq:
+            pos = min(len(out), pos)
+            out.insert(pos, "F%d_%d" % (f, x))
+            pos += r.randint(2, 3)
     return out
 
 
@@ -177,6 +195,8 @@ def script_of(sc):
     """(kind, answers) of one scripts= entry"""
     if sc == "p":
         return "p", ""
+    if sc[:1] == "F":
+        return "F", ""
     kind = "m"
     if sc[:2] in ("b:", "B:"):
         kind, sc = sc[0], sc[2:]
@@ -228,11 +248,11 @@ def classify(case, out, hist):
     prev = None
     for sc, tr in zip(scripts, scans):
         kind, sc = script_of(sc)
-        hist["scan_call:%s" % {"m": "scan_mem", "b": "blocks-without-file_size", "B": "blocks-with-file_size", "p": "scan_proc"}[kind]] += 1
+        hist["scan_call:%s" % {"m": "scan_mem", "b": "blocks-without-file_size", "B": "blocks-with-file_size", "p": "scan_proc", "F": "set_flags"}[kind]] += 1
         if prev is not None:
             hist["history:%s-then-%s" % (prev, kind)] += 1
         prev = kind
-        if kind == "p":
+        if kind in "pF":
             continue
         toks = tr.split()
         msgs, rc = toks[:-1], toks[-1]
@@ -277,7 +297,7 @@ def static_hist(cases, hist):
         imps = [i.split(":") for i in its if i.startswith("i:")]
         for x in rules:
             hist["rule_kind:" + x[2]] += 1
-            for ch, nm in (("r", "rule-ref"), ("x", "rule-ref"), ("s", "string"), ("n", "string"), ("z", "filesize"), ("y", "filesize"), ("T", "const"), ("F", "const")):
+            for ch, nm in (("r", "rule-ref"), ("x", "rule-ref"), ("s", "string"), ("n", "string"), ("z", "filesize"), ("y", "filesize"), ("I", "integer-valued"), ("T", "const"), ("F", "const")):
                 if any(a.startswith(ch) for a in x[3].replace("|", "&").split("&")):
                     hist["cond_atom:" + nm] += 1
         hist["namespaces:%d" % min(len({x[1] for x in rules}), 4)] += 1
@@ -459,7 +479,7 @@ def tm_hist(cases, model, hist):
         scripts = kv(c, "scripts").split("/")
         for sc, tr in zip(scripts, o.split(" ", 1)[1].split(" | ") if " " in o else []):
             kind, sc = script_of(sc)
-            if kind == "p":
+            if kind in "pF":
                 continue
             toks = tr.split()
             msgs, rc = toks[:-1], toks[-1]
